@@ -328,7 +328,16 @@ Definition camel_case (s : string) : string :=
   | w :: ws => String.concat "" (lowercase w :: map capitalize ws)
   end.
 
-Definition key_name_for_ident (ident : string) (ra : option rename_all) (rename : option string) : string :=
+(** the identifier itself, without the raw-identifier escape: [r#type] is the identifier [type]
+    ([syn::ext::IdentExt::unraw]) *)
+Definition unraw (ident : string) : string :=
+  match ident with
+  | String "r" (String "#" rest) => match rest with EmptyString => ident | _ => rest end
+  | _ => ident
+  end.
+
+Definition key_name_for_ident (ident0 : string) (ra : option rename_all) (rename : option string) : string :=
+  let ident := unraw ident0 in
   match rename with
   | Some name => name
   | None => match ra with
